@@ -239,3 +239,20 @@ Proof.
         (conj (consume_refines_mac p data ext) (consume_refines_enc p data ext))))).
 Qed.
 Print Assumptions C01_object_consume_is_functional.
+
+(* COSE_Sign as an object: in any state WithSign (any number of signers) followed by MarshalCBOR is the functional
+   sign_produce on the exported fields; on a fresh object UnmarshalCBOR followed by Verify is the functional sign_consume *)
+Theorem C01_sign_object_produce_is_functional : forall o ps ext,
+  sign_produce_then_marshal o ps ext = prod_out (sign_produce ps (o_prot o) (o_unprot o) (o_payload o) ext).
+Proof. exact produce_refines_sign. Qed.
+Print Assumptions C01_sign_object_produce_is_functional.
+
+Theorem C01_sign_object_consume_is_functional : forall vs data ext,
+  match sign_consume false vs data ext with
+  | Ok (v, l) => snd (sign_decode_then_consume vs data ext) = ROk
+                 /\ snap_of (fst (sign_decode_then_consume vs data ext)) = (Some (v_prot v), v_unprot v, v_payload v, [], Some l)
+  | Err => snd (sign_decode_then_consume vs data ext) = RErr
+  | Panic => snd (sign_decode_then_consume vs data ext) = RPanic
+  end.
+Proof. exact consume_refines_sign. Qed.
+Print Assumptions C01_sign_object_consume_is_functional.
